@@ -51,7 +51,9 @@ def run(tier):
              ("c07_pairs_d2w", consts(2, 3, [0, 1], 6, False, True), ["lean"]),
              ("c07_pairs_d3", consts(3, 2, [0, 1], 4, False, True), ["lean"]),
              # floating-point elements: signed zeros are equal, a NaN equals nothing (elements are compared with ==, not as bytes)
-             ("c07_pairs_d1_double", consts(1, 2, [0, 1, 2, 3], 2, False, True, True), []),
+             ("c07_pairs_d1_double", consts(1, 2, [0, 1, 2, 3, 4], 2, False, True, True), []),
+             # four-dimensional operands seen through a view whose two middle dimensions are exchanged in memory
+             ("c07_pairs_d4_mid", consts(4, 2, [0, 1], 4, False, True), ["mid"]),
              ("c07_pairs_d2_double", consts(2, 2, [0, 2, 3], 2, False, True, True), ["lean"])]
     if tier == "thorough":
         pairs += [("c07_pairs_d3w", consts(3, 3, [0, 1], 6, False, True), ["lean"]),
@@ -89,6 +91,8 @@ def run(tier):
             for ka, kb, bits in o["res"]:
                 per_kind[ka + "|" + kb] = per_kind.get(ka + "|" + kb, 0) + 1
                 same_elem = ("long" in ka) == ("long" in kb)
+                if exp.get("nan") and not same_elem:
+                    continue
                 exact_empty = ka in EXACT_EMPTY and kb in EXACT_EMPTY
                 for half, want in ((bits[:6], want_ab), (bits[6:], want_ba)):
                     for k in range(6):
